@@ -17,6 +17,7 @@ import (
 //	callvar  mv0()                           call of a package-level variable holding a method value
 //	funclit  func() int { return b }()       reference inside a function literal
 //	shadow   func() int { b := 7; return b }()  a local variable with the name of a package-level one
+//	param    func(b int) int { return b }(7)  a parameter of a function literal with the name of a package-level variable
 //	fieldkey rec{b: 7}.b                     a struct field key with the name of a package-level variable
 //	lit      7
 //	pkgvar   liba.X                          exported variable of an imported package (V = import path)
@@ -30,7 +31,7 @@ type argT struct {
 //
 //	int      var a = lg("a", args…)
 //	novalue  var z int
-//	multi    var p, q = two("p", args…)
+//	multi    var p, q = two("p", args…)         (Label, when set, is logged instead of the first name: var _, q = two("u0", …))
 //	paired   var p, q = lg("p", args0…), lg("q", args1…)
 //	struct   var t0 = T{fx: lg("t0", args…)}
 //	mvalue   var mv0 = lgf("mv0", t0.m0)         (Recv = t0, Meth = m0)
@@ -130,10 +131,22 @@ func (c caseT) intNames() []string {
 	for _, v := range c.Vars {
 		switch v.Kind {
 		case "int", "novalue", "multi", "paired":
-			out = append(out, v.Names...)
+			for _, n := range v.Names {
+				if n != "_" {
+					out = append(out, n)
+				}
+			}
 		}
 	}
 	return out
+}
+
+// multiLabel: what the expression of a multi-value declaration logs.
+func multiLabel(v varT) string {
+	if v.Label != "" {
+		return v.Label
+	}
+	return v.Names[0]
 }
 
 func (c caseT) usesFieldKey() bool {
@@ -180,6 +193,8 @@ func argSrc(a argT) string {
 		return "func() int { return " + a.V + " }()"
 	case "shadow":
 		return "func() int { " + a.V + " := 7; return " + a.V + " }()"
+	case "param":
+		return "func(" + a.V + " int) int { return " + a.V + " }(7)"
 	case "fieldkey":
 		return "rec{" + a.V + ": 7}." + a.V
 	case "pkgvar":
@@ -212,7 +227,7 @@ func varSrc(v varT, px string) string {
 	case "novalue":
 		return fmt.Sprintf("var %s int", strings.Join(v.Names, ", "))
 	case "multi":
-		return fmt.Sprintf("var %s = two(%q%s)", strings.Join(v.Names, ", "), px+v.Names[0], argsSrc(argsOf(v, 0)))
+		return fmt.Sprintf("var %s = two(%q%s)", strings.Join(v.Names, ", "), px+multiLabel(v), argsSrc(argsOf(v, 0)))
 	case "paired":
 		var es []string
 		for i, n := range v.Names {
@@ -542,8 +557,10 @@ func forYaegi(src string) string {
 
 func id(name string, pkgLevel bool) string { return common.L(common.Q(name), common.B(pkgLevel)) }
 
-// argIds lists the identifiers of an operand in source order (only those that can matter:
-// package-level variables, functions, methods as "T.m").
+// argIds lists the identifiers of an operand in the order in which a pre-order walk of the
+// expression meets what they stand for (only those that can matter: package-level variables,
+// functions, methods as "T.m"). A method selector `t0.m0` is one node, met before its operand `t0`:
+// the reference to the method comes first.
 func argIds(a argT) []string {
 	switch a.K {
 	case "var":
@@ -553,14 +570,14 @@ func argIds(a argT) []string {
 	case "callarg":
 		return []string{id(a.V, true), id(a.W, true)}
 	case "method":
-		return []string{id(a.V, true), id("T."+a.W, true)}
+		return []string{id("T."+a.W, true), id(a.V, true)}
 	case "mexpr":
 		return []string{id("T."+a.W, true), id(a.V, true)}
 	case "callvar":
 		return []string{id(a.V, true)}
 	case "funclit":
 		return []string{id(a.V, true)}
-	case "shadow":
+	case "shadow", "param":
 		return []string{id(a.V, false), id(a.V, false)}
 	case "fieldkey":
 		return []string{id(a.V, false)}
@@ -587,13 +604,13 @@ func varSexp(v varT, late bool, px string) string {
 	case "blank":
 		items = append(items, common.L(common.Q(px+v.Label), idsOf("lg", argsOf(v, 0))))
 	case "multi":
-		items = append(items, common.L(common.Q(px+v.Names[0]), idsOf("two", argsOf(v, 0))))
+		items = append(items, common.L(common.Q(px+multiLabel(v)), idsOf("two", argsOf(v, 0))))
 	case "paired":
 		for i, n := range v.Names {
 			items = append(items, common.L(common.Q(px+n), idsOf("lg", argsOf(v, i))))
 		}
 	case "mvalue":
-		items = append(items, common.L(common.Q(px+v.Names[0]), common.L(id("lgf", true), id(v.Recv, true), id("T."+v.Meth, true))))
+		items = append(items, common.L(common.Q(px+v.Names[0]), common.L(id("lgf", true), id("T."+v.Meth, true), id(v.Recv, true))))
 	}
 	return common.L(items...)
 }
@@ -609,8 +626,8 @@ func (c caseT) declSexp(code string) []string {
 	case "P":
 		out := []string{
 			funcSexp("say", "n", "-", 1, 0, "-", "()"),
-			funcSexp("lg", "n", "-", 2, 1, "-", "()"),
-			funcSexp("lgf", "n", "-", 2, 1, "-", "()"),
+			funcSexp("lg", "n", "-", 2, 1, "-", common.L(id("say", true))),
+			funcSexp("lgf", "n", "-", 2, 1, "-", common.L(id("say", true))),
 		}
 		return append(out, c.typesSexp()...)
 	case "T":
